@@ -9,6 +9,7 @@ statements, only what matters for "a failing item leaves no trace":
                      session, a bulk delete is issued
     MutParam         the same on a parameter of the method (what it means depends on what the caller passes)
     Commit           self._data_session.commit()
+    Rollback         self._data_session.rollback()
     SetPh            self._id_placeholder = ...
     Call f k         a call of another KmipEngine method; k = kind of managed object passed (loaded / transient / param / none)
     CallOnce f k     the same when the call passes a one-entry dict / list literal over which all top-level loops of f iterate
@@ -84,7 +85,9 @@ class Fn:
                     out.append('Commit')
                 elif f.attr in ('add', 'delete', 'merge', 'add_all'):
                     out.append('Mut')
-                elif f.attr in ('query', 'rollback', 'flush', 'execute', 'close', 'expunge', 'refresh'):
+                elif f.attr == 'rollback':
+                    out.append('Rollback')
+                elif f.attr in ('query', 'flush', 'execute', 'close', 'expunge', 'refresh'):
                     if f.attr != 'query':
                         raise ValueError('%s: session.%s is not classified' % (self.name, f.attr))
                 else:
